@@ -14,43 +14,74 @@ MANIFEST_TEXT = ("Lean 4 theorems over an arbitrary field, for every size n and 
                  "Floating point: the same models instantiated with rounded real arithmetic (standard model fl(x)=x(1+d), "
                  "|d|<=u) satisfy the backward-error bound of Gaussian elimination for every n (Higham Thm 9.3/8.5/9.4 with "
                  "constant 3g+g^2, g=gamma_{n+1}): solve returns the exact solution of (A+dA)x=b, every column of invert solves "
-                 "(A+dA_c)x=e_c, determinant = det(A+dA)(1+t), |dA| <= c |L||U|; DiagonalMatrix members likewise. The model "
+                 "(A+dA_c)x=e_c, determinant = det(A+dA)(1+t), |dA| <= c |L||U|; DiagonalMatrix members likewise. "
+                 "Round three: the LU path has no absolute scale -- for any scalar type and any scaling that satisfies the "
+                 "identities the loops use (exact fields: x -> c*x, c != 0; rounded arithmetic: whenever fl(c*x) = c*fl(x), i.e. "
+                 "binary formats and powers of two without over/underflow) solve / invert / determinant of c*A, d*b report "
+                 "FMatrixError (determinant 0) in exactly the cases in which they do for A, b, exchange the same rows and return "
+                 "(d/c)*x, (1/c)*B, c^n*det (solveLU_scale, invertLU_scale, detLU_scale and the *_ge4 forms); and under "
+                 "rounding the pivoted decomposition reports FMatrixError only if P*A + dA is singular for some |dA| <= "
+                 "gamma_n |L||W| (L, W the partial factors at the failing step; lu_singular_reported_fl), i.e. never for a "
+                 "matrix farther from singularity than the backward error of the elimination. The model "
                  "is run against FieldMatrix/DynamicMatrix/DiagonalMatrix instantiated with a GF(32003) number class (n=1..7, "
                  "DynamicMatrix up to 10; >=80k cases per quick run incl. all 0/1 matrices of size 3 and, in the thorough tier, "
                  "of size 4) with an independent Laplace-determinant / A*x==b / A*B==I oracle and operand-unchanged checks; "
-                 "double/long double/complex are checked by residual (well-conditioned, permutation+tiny, unit-phase families).")
+                 "double/long double/complex and LoopSIMD<double,4> (every lane its own matrix, lanes with different pivot rows, "
+                 "some lanes exactly singular) are checked by residual: well-conditioned, permutation+tiny, unit-phase families, "
+                 "each also multiplied by m*2^k over the whole exponent range in which nothing over/underflows (double: |k|<=900, "
+                 "long double: |k|<=15900), exactly singular float matrices (zero row/column, equal rows), and runs with "
+                 "FMatrixPrecision<>::set_absolute_limit set to 0 ... 1e300 around the call.")
 MANIFEST_NOTE = ("Trusted: Lean kernel (+propext/Classical.choice/Quot.sound), Mathlib's Matrix.det and real numbers, "
                  "tr_c02.py, the fidelity of the hand-written LU model (differential execution over GF(p) only; any harmless "
                  "change of pivot choice is invisible there by design), g++/ASan/UBSan. Floating point: proved for real scalars "
                  "under the standard rounding model without overflow/underflow, in terms of the computed factors |L||U| (no "
-                 "growth-factor bound); that the machine arithmetic satisfies this model, the complex case, the closed forms "
-                 "n<=3 (Cramer's rule: forward stable only) and the left residual B*A-I of invert are not proved; the harness "
+                 "growth-factor bound); that the machine arithmetic satisfies this model (and commutes with power-of-two "
+                 "scalings), the complex case, the closed forms "
+                 "n<=3 (Cramer's rule: forward stable only) and the left residual B*A-I of invert are not proved; "
+                 "'FMatrixError => singular up to the backward error' is proved with the bound in terms of the partial "
+                 "factors |L||W| (no growth-factor / condition-number form). The harness "
                  "checks residuals against 100 n^2 eps bounds for matrices with condition number <= ~100 (pivoting; incl. "
                  "scaled permutations + tiny noise, where only the column maximum is a safe pivot, and complex matrices with "
-                 "purely real/imaginary entries) or strictly diagonally dominant ones (no pivoting). Singular n<=3, singular "
+                 "purely real/imaginary entries) or strictly diagonally dominant ones (no pivoting), at every magnitude of the "
+                 "entries. For long double operands outside the range of double (field token ld@ka@kb) the Lean driver computes "
+                 "on the unscaled operands (justified by the scale theorems); FMatrixPrecision's runtime limit is not a "
+                 "parameter of the model (the default build must not read it). SIMD: only LoopSIMD<double,4> and only through "
+                 "the residual oracle lane by lane (model answer = scalar model per lane, justified by C09's lane-wise "
+                 "theorems); all other SIMD shapes and the bit-for-bit lane transparency are C09's. Singular n<=3, singular "
                  "DiagonalMatrix and unpivoted break-down on nonsingular A are outside the property and are not compared; "
                  "non-square operands and 0x0 DynamicMatrix (cols() asserts) are outside its domain; #ifdef "
-                 "DUNE_FMatrix_WITH_CHECKING code is not compiled. SIMD lanes: see C09.")
+                 "DUNE_FMatrix_WITH_CHECKING code is not compiled (with that macro the closed forms and DiagonalMatrix reject "
+                 "matrices below FMatrixPrecision's absolute limit by design).")
 TECHNIQUE = ('Lean 4 proof (L*W = P*A0 invariant of in-place LU with partial pivoting, any field, any n; top-level theorems '
              'about the size-dispatching member functions; entry-wise rounding-error invariant for the same loops over '
-             'rounded reals) + translator for the closed-form blocks, the size dispatch and the '
-             'default arguments + differential correspondence over GF(32003) with independent oracle')
+             'rounded reals; lockstep simulation of the scaled against the unscaled run for any scalar type) + translator '
+             'for the closed-form blocks, the size dispatch and the '
+             'default arguments + differential correspondence over GF(32003) with independent oracle + residual oracle over '
+             'double / long double / complex / LoopSIMD<double,4> at all magnitudes')
 TRANSLATORS = [tr_c02.translate]
 HARNESS = dict(
     sources=["cxx_c02.cc"],
     repo_sources=["dune/common/exceptions.cc", "dune/common/stdstreams.cc"],
     flags=["-O0", "-g1"],
 )
-RULE = ("cases: field gf|f64|ld|c64 x op solve|invert|det|FMatrixHelp::invertMatrix[_retTransposed] x FieldMatrix|"
+RULE = ("cases: field gf|f64|ld|c64|v64 (v64 = LoopSIMD<double,4>, four independent lanes) x op solve|invert|det|"
+        "FMatrixHelp::invertMatrix[_retTransposed] x FieldMatrix|"
         "DynamicMatrix|DiagonalMatrix x n=1..7 (DynamicMatrix also 8..10) x doPivoting true|false|argument omitted; "
         "GF(32003) matrices from 12 generators (dense, sparse, row-permuted triangular, rank-deficient products, "
         "dependent/zero rows or columns, vanishing leading minor, pivot ties x/p-x, monomial, singular only in the last "
         "step, diagonal-ish) plus exhaustive/strided enumeration of 0/1 and 0/1/-1 matrices; floats: rotations x "
         "diag(1..64) x rotations, scaled permutation + noise of size 1e-6..1e-30 (pivoting), strictly diagonally dominant "
         "(no pivoting); complex additionally with exact unit phases i^k on rows/columns (purely real/imaginary entries); "
+        "two in five float cases multiplied by m*2^ka (b by 2^kb), ka boundary-biased (..., 2^-266 ~ 1e-80, 2^-333 ~ 1e-100, "
+        "...) over the range in which operands, results and intermediates of the algorithm neither overflow nor become "
+        "subnormal (LU solve/invert |ka|<=900 for double/complex, <=15900 for long double; determinant |ka|<=E/n-8; closed "
+        "forms |ka|<=E/3-10); one in eight dense float cases of size >=4 made exactly singular (zero row, zero column, "
+        "two equal rows; in a SIMD operand in some lanes only); one case in ten (every field) runs with "
+        "FMatrixPrecision<>::set_absolute_limit(0 | 1e-320 .. 1e300); "
         "distinct = distinct op lines; non-trivial = the oracle decided a clause of the property (value checked, or "
         "FMatrixError/0 demanded); 'ok trivial' = behaviour unspecified by the property (singular n<=3, singular "
-        "diagonal, unpivoted break-down); lu_* counters = pivot patterns seen by a statistics-only shadow elimination")
+        "diagonal, unpivoted break-down); lu_* counters = pivot patterns seen by a statistics-only shadow elimination; "
+        "gen_scale_* / flt_A_exp2_* = binary magnitude classes of the float operands; simd_* = lane mixes")
 ASSUMPTIONS = [
     "the LU model lean/DuneVerif/Model/C02.lean is hand-written; its fidelity to densematrix.hh rests on the differential run over GF(32003)",
     "the closed forms for n<=3, FMatrixHelp::invertMatrix*, the list of sizes with a closed-form branch and the default arguments of doPivoting are regenerated from the source by tools/translators/tr_c02.py (straight-line grammar; anything else raises)",
@@ -58,6 +89,10 @@ ASSUMPTIONS = [
     "the theorems need absval x = 0 <-> x = 0 and 0 <= absval x (true for abs on real/complex fields and for the harness' GF(p) class)",
     "'solve and determinant never modify A or b' is decided by the harness (operands compared before/after), the functional model cannot express it",
     "square operands of size >= 1 only (rows()!=cols() throws FMatrixError by an explicit guard; a 0x0 DynamicMatrix fails the assertion in mat_cols())",
+    "scale theorems: hypotheses fl(c*x) = c*fl(x) for c, d, d/c (true for binary floating point and powers of two in the absence of overflow/underflow; assumed, not proved, for the machine types); the harness keeps every scaled case inside that regime by construction of the exponent ranges",
+    "float matrices with a zero row, a zero column or (real types) two equal rows are treated as exactly singular: the elimination then meets an exact zero pivot whatever the rounding (x/x = 1 and x - 1*x = 0 exactly in IEEE arithmetic); for complex scalars equal rows are not used because the library's complex division does not guarantee z/z = 1",
+    "LoopSIMD<double,4>: the Lean driver answers lane by lane with the scalar model; that the SIMD code is lane-wise the scalar algorithm is property C09 (theorems lu_lanewise, solve_lanewise, invert_lanewise there)",
+    "the runtime value of FMatrixPrecision<>::absolute_limit() must not influence the default build (the macro DUNE_FMatrix_WITH_CHECKING is not defined); the harness varies it, the model does not have it",
 ]
 TRUSTED = ["g++/libstdc++, ASan/UBSan", "Mathlib v4.33 (Matrix.det, Equiv.Perm.sign, BlockTriangular)",
            "translator tr_c02.py", "harness/cxx_c02.cc (GF(p) class, generators, Laplace/residual oracles) + Driver/C02.lean parsing/printing"]
